@@ -173,6 +173,13 @@ def run_history(ctx, table, hist, struct_seed, can_seed, cases, meta, stats):
         w.close()
     # ---- direct oracle 1: canary scan
     for where, key, text in texts_of(w):
+        if key[0] == 'client-error':
+            # An exception the client library raises into the calling application (its own process, which holds the
+            # secret already) is neither a log record nor an error message returned by the server: outside the
+            # property.  Counted for the evidence, not a violation.
+            if w.can.scan(text):
+                stats['client_exception_texts_with_secret'] += 1
+            continue
         for kind, form, needle in w.can.scan(text):
             if key[0] == 'log':
                 site = site_name(table, key)
@@ -253,6 +260,8 @@ def swap_compare(ctx, table, hist, wa, wb, stats):
         ctx.notes.append('secret swap: history %s took a different path with other secrets (outcome depends on secret values); not compared' % hist['name'])
         return
     for (where, key, a), (_, _, b) in zip(ta, tb):
+        if key[0] == 'client-error':
+            continue
         a, b = mask(a, wa), mask(b, wb)
         if a == b:
             continue
@@ -332,7 +341,7 @@ def run(ctx):
         'third_party_logger_records': stats['foreign_records'], 'unlisted_records': stats['unlisted_records'],
         'unexplained_messages': stats['unexplained_messages'], 'template_records': stats['template_records'],
         'not_coq_printable': stats['not_coq_printable'], 'canary_hits': stats['canary_hits'],
-        'swap_text_diffs': stats['swap_diffs'], 'swap_outcome_dependent': stats['swap_outcome_dependent'],
+        'swap_text_diffs': stats['swap_diffs'], 'client_exception_texts_with_secret (outside the property)': stats['client_exception_texts_with_secret'], 'swap_outcome_dependent': stats['swap_outcome_dependent'],
         'table_sites': len(table.sites), 'observable_sites': len(obs_sites),
         'distinct_sites_exercised': len(stats['sites_hit']),
         'log_sites_info_plus': len([s for s in obs_sites if s['kind'].startswith('KLog')]),
